@@ -373,7 +373,14 @@ def limit_mult(a: Limit, b: Limit, conds: Conditions) -> Limit:
             elif cmp == LESS:
                 return Limit(Const(0), asymp=asymp_div(b.asymp, a.asymp, conds), side=b.side)
             elif cmp == GREATER:
-                return Limit(POS_INF, asymp=asymp_div(a.asymp, b.asymp, conds))
+                # oo * 0 with the infinite factor dominating: the sign is that of the
+                # side from which the other factor approaches 0
+                if b.side == FROM_ABOVE:
+                    return Limit(POS_INF, asymp=asymp_div(a.asymp, b.asymp, conds))
+                elif b.side == FROM_BELOW:
+                    return Limit(NEG_INF, asymp=asymp_div(a.asymp, b.asymp, conds))
+                else:
+                    return Limit(None)
             else:  # EQUAL case
                 return Limit(None)
         else:
@@ -388,12 +395,30 @@ def limit_mult(a: Limit, b: Limit, conds: Conditions) -> Limit:
         return Limit(0)
     else:
         res_e = normalize(a.e * b.e, conds)
+
+        def scaled(side, c):
+            """Side of c * t, where t approaches its limit from the given side."""
+            if c == Const(0):
+                return AT_CONST
+            elif conds.is_positive(c):
+                return side
+            elif conds.is_negative(c):
+                return opp_side(side)
+            else:
+                return TWO_SIDED
+
         if a.side == TWO_SIDED or b.side == TWO_SIDED:
             return Limit(res_e, asymp=asymp_mult(a.asymp, b.asymp, conds), side=TWO_SIDED)
         elif a.side == AT_CONST:
-            return Limit(res_e, asymp=b.asymp, side=b.side)
+            return Limit(res_e, asymp=b.asymp, side=scaled(b.side, a.e))
         elif b.side == AT_CONST:
-            return Limit(res_e, asymp=a.asymp, side=a.side)
+            return Limit(res_e, asymp=a.asymp, side=scaled(a.side, b.e))
+        elif a.e != Const(0) and b.e == Const(0):
+            # nonzero limit times a term tending to 0: the rate is that of the vanishing term,
+            # the sign of the limit decides the side
+            return Limit(res_e, asymp=b.asymp, side=scaled(b.side, a.e))
+        elif a.e == Const(0) and b.e != Const(0):
+            return Limit(res_e, asymp=a.asymp, side=scaled(a.side, b.e))
         elif a.side == FROM_ABOVE and b.side == FROM_ABOVE:
             return Limit(res_e, asymp=asymp_mult(a.asymp, b.asymp, conds), side=FROM_ABOVE)
         elif a.side == FROM_ABOVE and b.side == FROM_BELOW:
